@@ -20,7 +20,20 @@
    `result` lists the regions of the returned page (id, shape name) with their lines (id, cells).
      1  the call returned
      2  all line ids on the page are distinct
-     3  every line lies inside its region (cells)                                                          *)
+     3  every line lies inside its region (cells)
+
+   kind = "tilt": one real call of LayoutExtractor.process_page (stub detector) on a skewed page: rectangular regions
+   `rects` ([name, x0, y0, x1, y1] in px) and tilted detected baselines `det` ([a, d, n, ks, h]: points a + ks[m] * d, d a Pythagorean
+   direction with |d| = n, h = heights), as in Part C of RegionAssign; `result` lists the regions of the returned page (id, rectangle
+   name) with their lines (id, baseline points `pts`, outline vertices `poly`, thousandths of a pixel, clamped to +-6000 px).
+   Tolerance TolC = 0.1 px (the rotate-forth-and-back of merge_lines is exact to about 1e-13 px).
+     1  the call returned
+     2  all line ids on the page are distinct
+     3  every line lies inside its region's rectangle and its baseline is a piece of ONE detected baseline (every point on the segment)
+     4  its outline lies inside the rectangle and inside the band of that detected baseline (at most max(h) from it, between its ends)
+     5  when lines are distributed (DETECT_LINES, or supplied regions that keep their lines): every detected baseline wholly
+        inside a rectangle is found in a region of that rectangle with its points unchanged - under MERGE_LINES for the baselines that
+        are not mergeable (every other baseline at least twice the summed heights away from its supporting line)        *)
 EXTENDS RegionAssign, TraceKit
 CONSTANT Detailed
 VARIABLES tid, passed
@@ -69,7 +82,61 @@ B3 == \A k \in 1..Len(Tr.result) : (\E s \in Shapes : s.name = Tr.result[k].name
                                             <<Tr.result[k].lines[m].cells[c][1], Tr.result[k].lines[m].cells[c][2]>> \in ShapeNamed(Tr.result[k].name).cells
 PassedB == IF ~B1 THEN 0 ELSE IF ~B2 THEN 1 ELSE IF ~B3 THEN 2 ELSE 6
 
-Passed == IF Tr.kind = "assign" THEN PassedA ELSE PassedB
+\* ---------------------------------------------------------------- kind = "tilt"
+TolC == 100
+SaneC == 6000000
+NDet == Len(Tr.det)
+Det(n) == Tr.det[n]
+KnownRect(name) == \E k \in 1..Len(Tr.rects) : Tr.rects[k].name = name
+RectNamed(name) == Tr.rects[CHOOSE k \in 1..Len(Tr.rects) : Tr.rects[k].name = name]
+DetPtK(n, m) == <<K * (Det(n).a[1] + Det(n).ks[m] * Det(n).d[1]), K * (Det(n).a[2] + Det(n).ks[m] * Det(n).d[2])>>
+NPts(n) == Len(Det(n).ks)
+SanePt(p) == CAbs(p[1]) <= SaneC /\ CAbs(p[2]) <= SaneC
+InRectK(r, p, tol) == /\ K * r.x0 - tol <= p[1] /\ p[1] <= K * r.x1 + tol
+                      /\ K * r.y0 - tol <= p[2] /\ p[2] <= K * r.y1 + tol
+\* |d| times the signed distance of p from the supporting line of detected baseline n / |d| times its position along it
+CrossK(n, p) == (p[1] - K * Det(n).a[1]) * Det(n).d[2] - (p[2] - K * Det(n).a[2]) * Det(n).d[1]
+DotK(n, p) == (p[1] - K * Det(n).a[1]) * Det(n).d[1] + (p[2] - K * Det(n).a[2]) * Det(n).d[2]
+Between(n, p) == /\ DotK(n, p) >= -(TolC * Det(n).n)
+                 /\ DotK(n, p) <= K * Det(n).ks[NPts(n)] * Det(n).n * Det(n).n + TolC * Det(n).n
+OnDet(n, p) == CAbs(CrossK(n, p)) <= TolC * Det(n).n /\ Between(n, p)
+HMax(n) == IF Det(n).h[1] >= Det(n).h[2] THEN Det(n).h[1] ELSE Det(n).h[2]
+InBand(n, p) == CAbs(CrossK(n, p)) <= (K * HMax(n) + TolC) * Det(n).n /\ Between(n, p)
+RL(k, m) == Tr.result[k].lines[m]
+Judged(k) == KnownRect(Tr.result[k].name)
+PieceOf(k, m, n) == \A i \in 1..Len(RL(k, m).pts) : OnDet(n, RL(k, m).pts[i])
+LineOK(k, m) == /\ Len(RL(k, m).pts) >= 2
+                /\ \A i \in 1..Len(RL(k, m).pts) : /\ SanePt(RL(k, m).pts[i])
+                                                    /\ InRectK(RectNamed(Tr.result[k].name), RL(k, m).pts[i], TolC)
+                /\ \E n \in 1..NDet : PieceOf(k, m, n)
+OutlineOK(k, m) == /\ Len(RL(k, m).poly) >= 3
+                   /\ \A i \in 1..Len(RL(k, m).poly) : /\ SanePt(RL(k, m).poly[i])
+                                                        /\ InRectK(RectNamed(Tr.result[k].name), RL(k, m).poly[i], TolC)
+                   /\ \E n \in 1..NDet : PieceOf(k, m, n) /\ \A i \in 1..Len(RL(k, m).poly) : InBand(n, RL(k, m).poly[i])
+Live == Tr.opts.dl = 1 \/ Tr.opts.dr = 0
+WhollyInK(r, n) == \A m \in 1..NPts(n) : /\ K * r.x0 + TolC < DetPtK(n, m)[1] /\ DetPtK(n, m)[1] < K * r.x1 - TolC
+                                          /\ K * r.y0 + TolC < DetPtK(n, m)[2] /\ DetPtK(n, m)[2] < K * r.y1 - TolC
+\* not mergeable with any other detected baseline: both ends of every other baseline lie on one side of n's supporting line, at
+\* least twice the summed heights away (merge_lines needs rows that overlap by 0.7 of the smaller height)
+Separated(n) == \A o \in 1..NDet : (o # n) =>
+                   LET lim == 2 * K * (Det(n).h[1] + Det(n).h[2] + Det(o).h[1] + Det(o).h[2]) * Det(n).n
+                       c1 == CrossK(n, DetPtK(o, 1))
+                       c2 == CrossK(n, DetPtK(o, NPts(o)))
+                   IN (c1 >= lim /\ c2 >= lim) \/ (c1 <= -lim /\ c2 <= -lim)
+SamePts(pts, n) == /\ Len(pts) = NPts(n)
+                   /\ \A i \in 1..NPts(n) : /\ CAbs(pts[i][1] - DetPtK(n, i)[1]) <= TolC
+                                             /\ CAbs(pts[i][2] - DetPtK(n, i)[2]) <= TolC
+C1 == Tr.outcome = "ok"
+C2 == Distinct(ResIds)
+C3 == \A k \in 1..Len(Tr.result) : Judged(k) => \A m \in 1..Len(Tr.result[k].lines) : LineOK(k, m)
+C4 == \A k \in 1..Len(Tr.result) : Judged(k) => \A m \in 1..Len(Tr.result[k].lines) : OutlineOK(k, m)
+C5 == Live => \A q \in 1..Len(Tr.rects), n \in 1..NDet :
+                 (WhollyInK(Tr.rects[q], n) /\ (Tr.opts.merge = 1 => Separated(n)))
+                    => \E k \in 1..Len(Tr.result) : /\ Tr.result[k].name = Tr.rects[q].name
+                                                     /\ \E m \in 1..Len(Tr.result[k].lines) : SamePts(RL(k, m).pts, n)
+PassedC == IF ~C1 THEN 0 ELSE IF ~C2 THEN 1 ELSE IF ~C3 THEN 2 ELSE IF ~C4 THEN 3 ELSE IF ~C5 THEN 4 ELSE 6
+
+Passed == IF Tr.kind = "assign" THEN PassedA ELSE IF Tr.kind = "extract" THEN PassedB ELSE PassedC
 
 TInit == /\ tid \in 1..NTraces
          /\ passed = Passed
